@@ -189,6 +189,11 @@ func (r *vsLifeRun) wordOf(addr unsafe.Pointer) string {
 			return "fd.closed"
 		case unsafe.Pointer(&c.netFD.detaching):
 			return "detaching"
+		case unsafe.Pointer(&c.onRequestCallback):
+			// the handler word: SetOnRequest's Store is a schedule point (the Dekker hand-off {publish handler, look at the
+			// buffer} x {publish length, look at the handler}); the Loads are traced but merged with the loader's previous
+			// step (quietOp below): a Store commutes with that step, so no behaviour is lost
+			return "orCb"
 		}
 		if c.inputBuffer != nil && addr == unsafe.Pointer(&c.inputBuffer.length) {
 			return "inLen"
@@ -449,6 +454,7 @@ func vsLifeExec(sc vsLifeScn, ch vsChooser) (string, *vsSched) {
 	r.br = barrier{bs: make([][]byte, barriercap), ivs: make([]syscall.Iovec, barriercap)}
 	s.wordOf, s.chanOf, s.timerOf = r.wordOf, r.chanOf, r.timerOf
 	s.quiet = vsQuiet
+	s.quietOp = func(word, fn string) bool { return word == "orCb" && fn == "Value.Load" }
 
 	savedPM, savedLogger := pollmanager, logger
 	m := &manager{numLoops: 1, status: managerInitialized}
